@@ -123,7 +123,9 @@ type Sched struct {
 	// likely to lose the processor.
 	Quantum  int64
 	Deadlock bool
-	Watchdog bool
+	// BudgetHit: some task of this simulation ran into its step ceiling (the reason, once).
+	BudgetHit string
+	Watchdog  bool
 
 	// Leaked counts goroutines of the code under test that were still blocked when every
 	// caller task had returned (they are unwound by the simulator).
@@ -224,7 +226,14 @@ func Yield(id int) {
 	s.GlobalStep++
 	t.ring[t.Steps&255] = int32(id)
 	if t.Steps > t.Budget {
-		panic(abortSentinel{"step budget exhausted at " + t.cycle()})
+		why := "step budget exhausted at " + t.cycle()
+		if s.BudgetHit == "" {
+			// remembered on the simulation itself: the code under test may recover the panic below
+			// (a worker pool that turns panics into errors), the verdict "this call did not finish
+			// within its budget" must survive that
+			s.BudgetHit = why
+		}
+		panic(abortSentinel{why})
 	}
 	if t.kill != "" {
 		panic(abortSentinel{t.kill})
@@ -614,6 +623,9 @@ func RunSolo(fn func(), budget int64) *Task {
 	}
 	if s.Deadlock && t.Aborted == "" {
 		t.Aborted = "deadlock"
+	}
+	if s.BudgetHit != "" && t.Aborted == "" {
+		t.Aborted = s.BudgetHit
 	}
 	return t
 }
